@@ -1,5 +1,6 @@
 (* Model of plasTeX/Context.py: class ContextItem and the stack part of class Context
-   (push, pop, mapMethods, createContext, __getitem__, addGlobal, addLocal, let, get_let, whichCode,
+   (push, pop, mapMethods, createContext, __getitem__, addGlobal, addLocal, let (with the local= argument
+   of fix-1), get_let, whichCode,
    catcode, setVerbatimCatcodes, newif, newcounter), as the code is.
 
    State.  Context.contexts is a Python list whose element 0 is the global namespace, created by
@@ -147,11 +148,13 @@ Definition getitem (k : name) (s : state) : state * value :=
   | None => (add_global k (VUnrec k) s, VUnrec k)
   end.
 
-(* Context.let: escape-sequence source: self.top[dest] = self[source]; otherwise self.top.lets[dest] = source *)
-Definition let_macro (d src : name) (s : state) : state :=
-  let (s1, v) := getitem src s in upd_top (bind d v) s1.
-Definition let_tok (d : name) (t : ltok) (s : state) : state :=
-  upd_top (fun f => set_lets f ((d, t) :: lets f)) s.
+(* Context.let(dest, source, local):  target = self.top if local else self.contexts[0]
+     escape-sequence source: target[dest] = self[source]; otherwise target.lets[dest] = source *)
+Definition upd_target (local : bool) : (frame -> frame) -> state -> state := if local then upd_top else upd_bottom.
+Definition let_macro (local : bool) (d src : name) (s : state) : state :=
+  let (s1, v) := getitem src s in upd_target local (bind d v) s1.
+Definition let_tok (local : bool) (d : name) (t : ltok) (s : state) : state :=
+  upd_target local (fun f => set_lets f ((d, t) :: lets f)) s.
 
 (* list.append of a new table; returns its index *)
 Definition alloc (t : table) (s : state) : state * nat := (set_heap s (heap s ++ [t]), length (heap s)).
@@ -199,8 +202,10 @@ Definition step (o : op) (s : state) : state :=
   | Pop x => pop x s
   | AddLocal k v => add_local k v s
   | AddGlobal k v => add_global k v s
-  | LetMacro d src => let_macro d src s
-  | LetTok d t => let_tok d t s
+  | LetMacro d src => let_macro true d src s
+  | LetTok d t => let_tok true d t s
+  | GLetMacro d src => let_macro false d src s
+  | GLetTok d t => let_tok false d t s
   | Catcode c k => catcode c k s
   | Verbatim => verbatim s
   | Getitem k => fst (getitem k s)
@@ -297,6 +302,8 @@ Definition op_of (v : val) : option op :=
       | _, _, _ => None
       end
   | VL [VI 11; c; VI z] => match getN c with Some c => Some (SetCell c z) | None => None end
+  | VL [VI 12; d; s] => match getN d, getN s with Some d, Some s => Some (GLetMacro d s) | _, _ => None end
+  | VL [VI 13; d; t] => match getN d, getN t with Some d, Some t => Some (GLetTok d t) | _, _ => None end
   | _ => None
   end.
 
